@@ -104,6 +104,22 @@ def pod_forms():
                 en = a.isascii() and name != "noon" or a in ("noon",)
                 text = "{} in the {}".format(h, a) if a in ("morning", "forenoon", "afternoon", "evening", "night") else "{} uhr {}".format(h, a)
                 out.append(("hour in pod", text, exp, 0, name, h))
+    # modified parts of day (compound names such as lateevening / earlyafternoon keep the +12h reading)
+    for mod in ("late", "early", "spät", "früh"):
+        for a, name in (("evening", "evening"), ("afternoon", "afternoon"), ("abends", "evening"), ("nachmittags", "afternoon"), ("morning", "morning"), ("morgens", "morning")):
+            if mod.isascii() != a.isascii() and not (a in ("evening", "afternoon", "morning")):
+                pass
+            for h in range(1, 12):
+                exp = h + 12 if name in pm else h
+                if a in ("evening", "afternoon", "morning"):
+                    if not mod.isascii():
+                        continue
+                    text = "at {} in the {} {}".format(h, mod, a)
+                else:
+                    if mod.isascii():
+                        continue
+                    text = "{} uhr {} {}".format(h, mod, a)
+                out.append(("hour in modified pod", text, exp, 0, name, h))
     return out
 
 
